@@ -46,9 +46,9 @@ type c01Req struct {
 }
 
 type c01History struct {
-	Index   int      `json:"index"`
-	Clients int      `json:"clients"`
-	Delay   bool     `json:"delay_point"`
+	Index   int        `json:"index"`
+	Clients int        `json:"clients"`
+	Delay   bool       `json:"delay_point"`
 	Ops     [][]string `json:"ops"`
 }
 
